@@ -22,9 +22,16 @@ def opC12Judge (j : Json) : Json :=
   let pairs := (arr j "pairs").toList.map fun p =>
     let a := arrOf p
     (natOf (a.getD 0 .null), natOf (a.getD 1 .null), natOf (a.getD 2 .null))
+  -- optional 4th component: the start allowance (1 = the pair may still have to register; 0 = it was
+  -- registered with the configured binding when the observed window began)
+  let bases := (arr j "pairs").toList.map fun p =>
+    let a := arrOf p
+    if a.length > 3 then natOf (a.getD 3 .null) else 1
+  let fromOk := (pairs.zip bases).all fun (p, b) => Spec.C12.registerOnceFromOk b p.1 p.2.1 p.2.2
   let nonces := (arr j "nonces").toList.map fun l => (arrOf l).map strOf
   let badTasks := tasks.filter fun t => !Spec.C12.traceOk (Spec.C12.perTask events t)
-  Json.mkObj [("holds", Spec.C12.holds tasks events allRet pairs nonces),
+  Json.mkObj [("holds", Spec.C12.holds tasks events allRet pairs nonces && fromOk),
+              ("register_once_from_start_ok", fromOk),
               ("all_returned", allRet),
               ("tasks_ok", Spec.C12.tasksOk tasks events),
               ("bad_tasks", Json.arr (badTasks.map (fun (t : Nat) => Json.num (JsonNumber.fromNat t))).toArray),
